@@ -571,9 +571,16 @@ func (db *SingleBucketBackend) ForceDeleteBucket(name string) error {
 		}
 	}
 
-	// Delete the bucket itself
-	if err := db.fs.RemoveAll("."); err != nil {
+	// Delete what is left below the bucket's directory. The directory itself
+	// stays: it is the one bucket this backend serves and nothing recreates it.
+	entries, err := afero.ReadDir(db.fs, ".")
+	if err != nil {
 		return err
+	}
+	for _, entry := range entries {
+		if err := db.fs.RemoveAll(entry.Name()); err != nil {
+			return err
+		}
 	}
 
 	return nil
